@@ -28,6 +28,9 @@ def dispatch(prop, tier):
     if prop == "C16":
         from . import nd_check
         return nd_check.check(prop, tier)
+    if prop == "C19":
+        from . import ctl_check
+        return ctl_check.check(prop, tier)
     raise MachineryError("no check for %s" % prop)
 
 
@@ -51,6 +54,9 @@ def main(argv):
             if mod == "NotifierDelay":
                 from . import nd_check
                 return nd_check.replay(argv[1])
+            if mod == "Controls":
+                from . import ctl_check
+                return ctl_check.replay(argv[1])
             raise MachineryError("cannot replay module %s" % mod)
         prop = argv[0]
         tier = argv[1] if len(argv) > 1 else os.environ.get("VERIF_TIER", "quick")
